@@ -708,7 +708,7 @@ def search(ctx, R):
     rng = ctx.rng
     t0 = time.time()
     pairs = []
-    n = bad = 0
+    n = bad = vbad = ebad = 0
     # 1. crosswalk: deterministic sweep over every nan position pattern, then random
     for case in sweep_crosswalk_cases():
         n += 1
@@ -724,18 +724,18 @@ def search(ctx, R):
         if i % 600 == 0:
             ctx.sample({"case": case})
         # 2. validation: the unchanged request must be accepted, every change of an unknown axis refused
-        if i % 3 == 0:
-            check_validate_case(ctx, R, {"kind": "nan-validate", "old": case["old"], "new": case["new"], "expect": "accept", "variant": "valid"})
+        if i % 3 == 0 and vbad < 20:
+            vbad += not check_validate_case(ctx, R, {"kind": "nan-validate", "old": case["old"], "new": case["new"], "expect": "accept", "variant": "valid"})
             unk = [ax for ax, o in enumerate(case["old"]) if has_nan(o)]
             if unk:
                 ax = rng.choice(unk)
                 for name, v in variants_of_unknown_axis(rng, case["old"][ax]):
                     new = [list(w) for w in case["new"]]
                     new[ax] = v
-                    check_validate_case(ctx, R, {"kind": "nan-validate", "old": case["old"], "new": new, "expect": "refuse", "variant": name})
+                    vbad += not check_validate_case(ctx, R, {"kind": "nan-validate", "old": case["old"], "new": new, "expect": "refuse", "variant": name})
         # 3. planner / estimates
-        if i % 4 == 0:
-            check_estimate_case(ctx, R, {"kind": "nan-estimate", "old": case["old"], "new": case["new"], "itemsize": rng.choice([1, 4, 8]),
+        if i % 4 == 0 and ebad < 20:
+            ebad += not check_estimate_case(ctx, R, {"kind": "nan-estimate", "old": case["old"], "new": case["new"], "itemsize": rng.choice([1, 4, 8]),
                                          "threshold": rng.choice([None, 1, 4]), "limit": rng.choice([None, 8, 1024])})
     ctx.notes["nan_crosswalk_cases"] = n
     ctx.notes["nan_crosswalk_cases_failing"] = bad
@@ -753,9 +753,9 @@ def search(ctx, R):
         api_cases.append(scalar_api_case(rng, p))
     for p in ("middle", "end", "alternating", "all"):
         api_cases.append(rand_api_case(rng, p, change="unknown"))
-    for _ in range(ctx.scale(260, 4000)):
+    for _ in range(ctx.scale(260, 2500)):
         api_cases.append(rand_api_case(rng))
-    budget = ctx.scale(7.0, 200.0)
+    budget = ctx.scale(7.0, 90.0)
     for case in api_cases:
         if mbad >= 10 or time.time() - t1 > budget:
             break
